@@ -3,6 +3,7 @@ import ComposeVerif.Model.Template
 import ComposeVerif.Spec.Template
 import ComposeVerif.Model.TemplateOpts
 import ComposeVerif.Model.TemplateSites
+import ComposeVerif.Model.TemplateDocs
 import ComposeVerif.Model.TemplateParse
 /-! line-protocol ops for C07: `subst` -/
 open Lean
@@ -149,6 +150,18 @@ def rawLinesOfJson (a : Array Json) : Option (List (Str × List Seg)) :=
     | some t => some ((getStr l "k").toList, t)
     | none => none
 
+/-- the documents a site of `c07AfterSites` (harness/p/c07/c07_sites.go) walks, in order: `layers` = env files of the
+    entries enclosing the value, `other` = env file of the include entry applied before the value's document -/
+def docsOfSite (site : String) (layers : List Sites.GoMap) (other : Sites.GoMap) (s : Str) : Option (List Docs.Doc) :=
+  let l0 := layers.headD []
+  match site with
+  | "after-include-override" | "after-include-dotenv-override" | "after-include-multidoc" =>
+    some [.incl other [], .value s]
+  | "after-include-extends" => some [.incl other [], .ext [.value s]]
+  | "after-include-sibling" => some [.incl other [], .incl [] [.value s]]
+  | "after-include-nested-files" | "after-include-nested-multidoc" => some [.incl l0 [.incl other [], .value s]]
+  | _ => none
+
 /-- `env`: the project environment; `layers`: the env files of the enclosing include entries, outermost first.
     Answers with the grammar's verdict in the environment the *glue model* builds (`includeChain` + `lookupEnv`)
     and with the model of the code at that site (`siteSubst`). -/
@@ -203,6 +216,19 @@ def substSite : Handler := fun args =>
           ("lines", Json.arr (lines.map fun l => str (renderL l.2)).toArray)]
       | none =>
       let env := Sites.lookupEnv (Sites.includeChain envMap layers)
+      let other : Sites.GoMap := match args.getObjVal? "other" with
+        | .ok j => pairsOfJson j
+        | _ => []
+      match docsOfSite (getStr args "after") layers other (renderL t) with
+      | some docs =>
+        -- sites after-include-*: the model of the code is the stateful walk over the documents (heap of option cells);
+        -- the grammar is evaluated in the enclosing layers only
+        let model := match (Docs.loadValues envMap docs).getLast? with
+          | some o => o
+          | none => .panic .fuel
+        Json.mkObj [("wf", Json.bool (WF t)), ("wf_ml", Json.bool (WFml t)), ("rendered", str (renderL t)),
+          ("eval", outJson (evalOut env t)), ("model", outJson model), ("docs", Json.num docs.length)]
+      | none =>
       Json.mkObj [("wf", Json.bool (WF t)), ("wf_ml", Json.bool (WFml t)), ("rendered", str (renderL t)),
         ("eval", outJson (evalOut env t)), ("model", outJson (Sites.siteSubst envMap layers (renderL t)))]
     | none => Json.mkObj [("bad", "ast")]
